@@ -185,7 +185,11 @@ func genC18(cs *CaseSet, rng *Rng, tier string, dir string) {
 				title := noLeadingLF(dataBytes(rng, rng.Pick(0, 1, 12, 200, 255)))
 				// the poster is the connection's display name: up to 255 bytes, like the title
 				admin.UserName = noLeadingLF(dataBytes(rng, rng.Pick(1, 8, 8, 200, 255)))
-				data := noLeadingLF(dataBytes(rng, rng.Pick(0, 1, 40, 600, 3000)))
+				dataLen := rng.Pick(0, 1, 40, 600, 3000)
+				if rng.Intn(40) == 0 { // bodies up to the 64 KiB field limit, rarely (every later step re-renders them)
+					dataLen = rng.Pick(20000, 60000)
+				}
+				data := noLeadingLF(dataBytes(rng, dataLen))
 				if lfProfile {
 					title, data = append([]byte("\n"), title...), append([]byte("\n\n"), data...)
 				}
